@@ -51,15 +51,14 @@ Proof.
 Qed.
 
 Theorem kstep_ref ts c (m : list (bytes * bytes)) : NoDup (map fst m) ->
-  (match c with KCsetrange _ off _ => 0 <= off | _ => True end) ->
   MapK.kstep ts c m = SpecK.kstep c m.
 Proof.
-  intros ND Off. destruct c as [k v|k v|k v|k d|k v|k off v|ks|]; cbn [MapK.kstep SpecK.kstep]; unfold kget, kstore, kvrec in *; try reflexivity.
+  intros ND. destruct c as [k v|k v|k v|k d|k v|k off v|ks|]; cbn [MapK.kstep SpecK.kstep]; unfold kget, kstore, kvrec in *; try reflexivity.
   - (* setnx *) unfold kget, amem. destruct (negb (value_ok v) || negb (key_ok k)); [reflexivity|]. destruct (aget bytes_eqb k m); reflexivity.
   - (* append *) unfold kget. destruct (negb (key_ok k)); [reflexivity|].
     destruct (aget bytes_eqb k m) as [old|]; destruct v; reflexivity.
-  - (* setrange *) unfold kget. destruct v as [|b v']; [destruct (negb (key_ok k)); [reflexivity|]; destruct (aget bytes_eqb k m); reflexivity|].
-    assert (off <? 0 = false) as -> by lia. cbn [orb].
+  - (* setrange *) unfold kget. destruct ((off <? 0) || (max_value_size <? off)); [reflexivity|].
+    destruct v as [|b v']; [destruct (negb (key_ok k)); [reflexivity|]; destruct (aget bytes_eqb k m); reflexivity|].
     destruct (max_value_size <? blen (b :: v') + off); [reflexivity|]. cbn [orb]. destruct (negb (key_ok k)); reflexivity.
   - (* del *)
     rewrite (del_keys_dedup ks [] m ND) by (intros k []).
@@ -79,8 +78,9 @@ Proof.
   - destruct (negb (key_ok k)); cbn [fst]; auto.
     destruct (aget bytes_eqb k m); destruct v; cbn [fst]; auto;
       match goal with |- context [if ?b then _ else _] => destruct b end; cbn [fst]; auto.
-  - destruct v; [destruct (negb (key_ok k)); exact ND|].
-    destruct ((off <? 0) || (max_value_size <? blen (n :: v) + off) || negb (key_ok k)); cbn [fst]; auto.
+  - destruct ((off <? 0) || (max_value_size <? off)); [exact ND|].
+    destruct v; [destruct (negb (key_ok k)); exact ND|].
+    destruct ((max_value_size <? blen (n :: v) + off) || negb (key_ok k)); cbn [fst]; auto.
   - rewrite (del_keys_dedup ks [] m ND) by (intros k []).
     rewrite (del_keys_nodup (dedup [] ks) (dedup_NoDup _ _) m ND). cbn [fst].
     generalize (dedup [] ks). intros l. revert m ND P. induction l as [|x l IH]; intros m ND P; cbn; [exact ND|].
